@@ -53,7 +53,22 @@ var c13Calls = []string{"sessionless-command", "new-session", "new-session-disco
 var c13Patterns = []string{"black-hole", "late-reply", "garbage", "temporary-code", "truncated",
 	// a healthy BMC whose SDR repository reports a newer timestamp at every look
 	// (only meaningful for retrieve-sdrs; honest elsewhere)
-	"repository-keeps-changing"}
+	"repository-keeps-changing",
+	// every reply arrives twice: the copies pile up in the socket
+	"duplicate",
+	// a healthy BMC whose cipher-suite record data fills every one of the 64
+	// list indexes with a full chunk (only meaningful for the discovery calls)
+	"cipher-suite-list-never-ends"}
+
+// c13LongSuites: 2048 bytes of valid cipher-suite records, suite 3 among them.
+func c13LongSuites() []byte {
+	var d []byte
+	for len(d) < 2048 {
+		d = append(d, csRec3.Encode()...)
+		d = append(d, csRecOEM.Encode()...)
+	}
+	return d[:2048]
+}
 
 // c13Answer returns the environment's answer for a faulty send.
 func c13Answer(p string) env.Answer {
@@ -62,6 +77,17 @@ func c13Answer(p string) env.Answer {
 		return env.LostReply()
 	case "late-reply":
 		return env.LateReply()
+	case "duplicate":
+		return env.Duplicate()
+	case "cipher-suite-list-never-ends":
+		a := env.Honest()
+		a.Name = "cipher-suite-list-never-ends"
+		a.Pre = func(t *env.Transport) {
+			if len(t.BMC.Cfg.CipherSuiteData) < 2048 {
+				t.BMC.Cfg.CipherSuiteData = c13LongSuites()
+			}
+		}
+		return a
 	case "garbage":
 		return env.Raw("garbage", func(t *env.Transport, rx *ref.Rx) []byte { return []byte{0x06, 0x00, 0xFF, 0x07, 0x06, 0x00, 0x01} })
 	case "temporary-code":
@@ -272,11 +298,14 @@ func c13Virtual(c c13Case) (key, msg, outcome string) {
 func c13Tolerates(c c13Case) bool {
 	// a late reply is still a valid response: the retransmission's read
 	// returns it, so the call may legitimately succeed
-	if c.Pattern == "late-reply" {
+	if c.Pattern == "late-reply" || c.Pattern == "duplicate" {
 		return true
 	}
 	if c.Pattern == "repository-keeps-changing" && c.Call != "retrieve-sdrs" {
 		return true // every reply is the honest one
+	}
+	if c.Pattern == "cipher-suite-list-never-ends" {
+		return true // every reply is a valid one
 	}
 	// Close Session has no response body: "truncated" is the honest reply
 	return c.Pattern == "truncated" && strings.HasPrefix(c.Call, "session-close")
@@ -368,6 +397,9 @@ func (u *udpBMC) serve() {
 			u.sendNo++
 			faulty = k == u.c.Step || (!u.c.Once && k > u.c.Step)
 		}
+		if faulty && u.c.Pattern == "cipher-suite-list-never-ends" && len(u.bmc.Cfg.CipherSuiteData) < 2048 {
+			u.bmc.Cfg.CipherSuiteData = c13LongSuites()
+		}
 		if faulty && u.c.Pattern == "repository-keeps-changing" && u.bmc.Cfg.Repo != nil {
 			u.bmc.Cfg.Repo.KeepReservation = true
 			u.bmc.Cfg.Repo.LastAdd++
@@ -381,6 +413,13 @@ func (u *udpBMC) serve() {
 			switch u.c.Pattern {
 			case "repository-keeps-changing":
 				reply = u.bmc.Honest(rx)
+			case "cipher-suite-list-never-ends":
+				reply = u.bmc.Honest(rx)
+			case "duplicate":
+				reply = u.bmc.Honest(rx)
+				if reply != nil {
+					u.conn.WriteToUDP(reply, from)
+				}
 			case "black-hole":
 			case "late-reply":
 				reply, delay = u.bmc.Honest(rx), u.lateDelay()
